@@ -1,0 +1,32 @@
+//go:build verif
+// +build verif
+
+package date
+
+// Accessors for the C20 correspondence harness (verification build only).
+
+// VC20Terms returns the terms table in substitution order: user token, Go layout, regexp fragment
+func VC20Terms() [][3]string {
+	res := make([][3]string, len(terms))
+	for i, t := range terms {
+		res[i] = [3]string{t.format, t.layout, t.expr}
+	}
+	return res
+}
+
+// VC20Formats returns the compiled formats of the parser in first-match order
+func (p *parser) VC20Formats() []*Format { return p.formats }
+
+// VC20Layout returns the Go layout the format was compiled to
+func (f *Format) VC20Layout() string { return f.dLayout }
+
+// VC20Regexp returns the source of the regular expression the format was compiled to
+func (f *Format) VC20Regexp() string { return f.dRegexp.String() }
+
+// VC20Flags returns hasLocation, hasYear, noDate
+func (f *Format) VC20Flags() (hasLocation, hasYear, noDate bool) {
+	return f.hasLocation, f.hasYear, f.noDate
+}
+
+// VC20Format returns the format string the Format was built from
+func (f *Format) VC20Format() string { return f.frmt }
